@@ -267,6 +267,7 @@ package ggql
 //@ spec goodName(name string, allowReserved bool) bool = len(name) > 0 && allTokenBytes(name) && !digitByte(name[0]) && (allowReserved || !reservedName(name))
 
 //@ func validateName
+//@   check accumulate {C13}
 //@   props C13
 //@   check panic {C03}
 //@   ensures[blank] len(name) == 0 ==> len(errs) > 0
@@ -288,6 +289,7 @@ package ggql
 //@ -- a type (or directive) name is checked like any other name; built-in (core) types may use the reserved "__" prefix;
 //@ -- the schema element must stay unnamed
 //@ func (*Root).validateTypeName
+//@   check accumulate {C13}
 //@   props C13
 //@   check panic {C03}
 //@   requires t != nil && ptrval(t) != 0
@@ -301,6 +303,7 @@ package ggql
 //@ -- union: at least one member, every member an object type
 //@ spec nonObjectMember(ms []Type, n int) bool = exists i int {ms[i]} :: 0 <= i && i < n && !is(ms[i], *Object)
 //@ func (*Union).Validate
+//@   check accumulate {C13}
 //@   props C13
 //@   check panic {C03}
 //@   requires t != nil
@@ -327,6 +330,7 @@ package ggql
 //@ spec fieldDefsOk(fs []*FieldDef) bool = distinctFields(fs) && (forall i int {fs[i]} :: 0 <= i && i < len(fs) ==> fs[i] != nil)
 
 //@ func (*Base).validateFieldDefs
+//@   check accumulate {C13}
 //@   props C13
 //@   check panic {C03}
 //@   requires b != nil && fields != nil
@@ -343,6 +347,7 @@ package ggql
 //@           decreases len(f.args.list) - rangeindex
 
 //@ func (*Interface).Validate
+//@   check accumulate {C13}
 //@   props C13
 //@   check panic {C03}
 //@   requires t != nil
@@ -359,6 +364,7 @@ package ggql
 //@ spec badInputField(f *InputField) bool = !goodName(f.N, f.core) || !inputT(box(f.Type))
 //@ spec badInputFieldUpTo(fs []*InputField, n int) bool = exists i int {fs[i]} :: 0 <= i && i < n && badInputField(fs[i])
 //@ func (*Input).Validate
+//@   check accumulate {C13}
 //@   props C13
 //@   check panic {C03}
 //@   requires t != nil
@@ -378,6 +384,7 @@ package ggql
 //@ spec badEnumValue(ev *EnumValue, core bool) bool = ev.Value == "true" || ev.Value == "false" || ev.Value == "null" || !goodName(ev.Value, core)
 //@ spec badEnumValueUpTo(vs []*EnumValue, core bool, n int) bool = exists i int {vs[i]} :: 0 <= i && i < n && badEnumValue(vs[i], core)
 //@ func (*Enum).Validate
+//@   check accumulate {C13}
 //@   props C13
 //@   check panic {C03}
 //@   requires t != nil && root != nil
@@ -418,6 +425,7 @@ package ggql
 //@ -- Root.validate checks every entry of both tables: it returns no error only if every type and every directive has
 //@ -- a well-formed name and satisfies the rules of its kind, and it returns an error as soon as one entry does not
 //@ func (*Root).validate
+//@   check accumulate {C13}
 //@   props C13
 //@   check panic {C03}
 //@   requires root != nil && root.types != nil && root.dirs != nil
@@ -439,6 +447,7 @@ package ggql
 //@ spec dirArg(d *Directive, name string) *Arg = ite(d.args.dict == nil, nil, d.args.dict[name])
 //@ spec allowedAt(d *Directive, loc Location, n int) bool = exists i int {d.On[i]} :: 0 <= i && i < n && d.On[i] == loc
 //@ func (*Root).validateDirUse
+//@   check accumulate {C13}
 //@   props C13 C03
 //@   check panic {C03}
 //@   requires root != nil && du != nil
